@@ -23,7 +23,8 @@ from harness import core                                     # noqa: E402
 from harness.core import coqZ, coqR, coq_list                # noqa: E402
 
 THEOREMS = ['C10_rate', 'C10_cumulative', 'C10_sum_of_doses', 'C10_regimen_pulses_ok', 'C10_table_is_spec',
-            'C10_table_exact', 'C10_regimen_doses', 'C10_dataset']
+            'C10_table_exact', 'C10_regimen_doses', 'C10_dataset', 'C10_delivered_monotone', 'C10_delivered_bounded',
+            'C10_nothing_before', 'C10_everything_after', 'C10_regimen_prescribes']
 HEADER = '''From Coq Require Import ZArith List Bool.
 From Chi Require Import Model.Dosing Tie.C10Tie.
 Import ListNotations.
